@@ -35,7 +35,7 @@ local co = coroutine.wrap(function(a) local b = coroutine.yield(a + 1) return b 
 local hs = {function() return debug.traceback("tb") end, function() return tostring(debug.getinfo(1, "n").name) end, function() error("boom") end}
 local dbg = #hs[1]() .. hs[2]() .. select(2, pcall(hs[3])) .. select(2, xpcall(function() return hs[3]() end, debug.traceback)):sub(1, 20) .. debug.getinfo(1, "l").currentline
 local function tailer() return hs[2]() end
-return r .. table.concat(parts) .. t[1] .. co(1) .. co(4) .. select("#", pcall(error, "e")) .. math.floor(3.7) .. os.time{year=2000, month=1, day=1, hour=0} .. dbg .. tailer() .. -(1 + 2) .. #long .. long:sub(-9)
+return r .. table.concat(parts) .. t[1] .. co(1) .. co(4) .. select("#", pcall(error, "e")) .. math.floor(3.7) .. os.time{year=2000, month=1, day=1, hour=0} .. dbg .. tailer() .. -(1 + 2) .. #long .. long:sub(-9) .. (sum % (24 * 60 * 60) + (2 ^ 3) * sum + (sum - -(1 + 2)))
 `
 
 const poolSrc = `
